@@ -1021,6 +1021,37 @@ example : runDecls [] [⟨1, ["aten::a", "aten::b"], false, false⟩, ⟨2, ["at
       some [⟨"aten::a", [1], []⟩, ⟨"aten::b", [1], []⟩] ∧
     runDecls [] [⟨1, ["aten::a", "aten::b.default"], false, false⟩] = none := by decide
 
+
+/-- **`kind_discipline`** (history theorem behind `registry_kinds_ok`): mark any set of functions as "written
+for complex inputs" (`cxNamed`).  If every `@torch_op` declaration of such a function says `complex=True`,
+then after *any* sequence of declarations — whatever their order, names, duplicates — no such function sits
+in a real slot: every (name, real) pair is owned by a function not written for complex inputs. -/
+theorem kind_discipline (cxNamed : Nat → Bool) (ds : List Decl) (r : Reg)
+    (hd : ∀ d ∈ ds, cxNamed d.func = true → d.isComplex = true) (h : runDecls [] ds = some r) :
+    ∀ n, ∀ g ∈ lookup r n false, cxNamed g = false := by
+  have hc := runDecls_realClean cxNamed ds [] r (by intro o ho; cases ho) hd h
+  intro n g hg
+  unfold lookup at hg
+  cases hf : r.find? (fun o => o.name == n) with
+  | none => simp [hf] at hg
+  | some o =>
+    simp only [hf, Bool.false_eq_true, if_false] at hg
+    exact hc o (List.mem_of_find?_eq_some hf) g hg
+
+/-- **`kind_discipline_necessary`** (the round-3 seed C16-7 as a theorem): one declaration that forgets
+`complex=True` on a complex function placed *before* its real twin hands the real slot to the complex
+function for good — the later, correct registration of the twin is discarded (`first_registration_wins`). -/
+theorem kind_discipline_necessary (n : String) (fc fr : Nat) (rest : List Registration) :
+    lookup (runRegs (⟨fc, n, false⟩ :: ⟨fr, n, false⟩ :: rest)) n false = [fc] := by
+  rw [first_registration_wins]
+  simp [List.find?_cons]
+
+example :  -- `aten_slice_complex` (7) declared real before `aten_slice` (8): the seed; and the disciplined order
+    runDecls [] [⟨7, ["aten::slice.Tensor"], false, false⟩, ⟨8, ["aten::slice.Tensor"], false, false⟩] =
+      some [⟨"aten::slice.Tensor", [7], []⟩] ∧
+    runDecls [] [⟨7, ["aten::slice.Tensor"], false, true⟩, ⟨8, ["aten::slice.Tensor"], false, false⟩] =
+      some [⟨"aten::slice.Tensor", [8], [7]⟩] := by decide
+
 /-! ## The table -/
 
 open OV.Gen.C16
@@ -1043,8 +1074,67 @@ def waived : String → List Defect
   | "torchvision::roi_pool" => [.clause .posFits, .clause .posAccepts, .clause .posNames]
   | _ => []
 
+/-- The rows outside the wide call model's theorem, with the reason: `posName` = a positional parameter is
+not named like its schema argument (a call passing that argument by keyword would not find it), `ruleFails` =
+the row already fails `bindsOk` (open findings / undefined names).  Exact: `registry_outsideK_exact`. -/
+def outsideK : String → Bool → List KReason
+  | "_operator::abs", _ => [.posName]
+  | "_operator::add", _ => [.posName]
+  | "aten::atleast_1d.Sequence", _ => [.posName]
+  | "aten::atleast_2d.Sequence", _ => [.posName]
+  | "aten::atleast_3d.Sequence", _ => [.posName]
+  | "_operator::and_", _ => [.posName]
+  | "_operator::__lshift__", _ => [.posName]
+  | "_operator::or_", _ => [.posName]
+  | "_operator::__rshift__", _ => [.posName]
+  | "math::ceil", _ => [.posName]
+  | "aten::clamp_max", _ => [.posName]
+  | "aten::clamp_max.Tensor", _ => [.posName]
+  | "aten::clamp_min", _ => [.posName]
+  | "aten::clamp_min.Tensor", _ => [.posName]
+  | "_operator::truediv", _ => [.posName]
+  | "aten::embedding_renorm", _ => [.posName]
+  | "aten::eq", _ => [.posName]
+  | "_operator::eq", _ => [.posName]
+  | "math::floor", _ => [.posName]
+  | "_operator::floordiv", _ => [.posName]
+  | "_operator::ge", _ => [.posName]
+  | "_operator::getitem", _ => [.posName]
+  | "aten::getitem", _ => [.ruleFails]
+  | "_operator::gt", _ => [.posName]
+  | "_operator::le", _ => [.posName]
+  | "_operator::lt", _ => [.posName]
+  | "aten::mean", false => [.ruleFails]
+  | "aten::mul", _ => [.posName]
+  | "_operator::mul", _ => [.posName]
+  | "aten::ne", _ => [.posName]
+  | "_operator::ne", _ => [.posName]
+  | "_operator::neg", _ => [.posName]
+  | "_operator::pow", _ => [.posName]
+  | "_operator::mod", _ => [.posName]
+  | "aten::repeat_interleave.Tensor", _ => [.ruleFails, .posName]
+  | "aten::split", _ => [.posName]
+  | "_operator::sub", _ => [.posName]
+  | "aten::tensor.bool", _ => [.posName]
+  | "aten::tensor.float", _ => [.posName]
+  | "aten::tensor.int", _ => [.posName]
+  | "math::trunc", _ => [.posName]
+  | "aten::unique_consecutive", _ => [.posName]
+  | "aten::det", _ => [.posName]
+  | "aten::upsample_bicubic2d.vec", _ => [.posName]
+  | "aten::upsample_bilinear2d.vec", _ => [.posName]
+  | "aten::upsample_trilinear3d.vec", _ => [.posName]
+  | "quantized_decomposed::quantize_per_channel.tensor", _ => [.ruleFails]
+  | "quantized_decomposed::quantize_per_channel.tensor2", _ => [.ruleFails]
+  | "quantized_decomposed::dequantize_per_channel.tensor", _ => [.ruleFails]
+  | "quantized_decomposed::dequantize_per_channel.tensor2", _ => [.ruleFails]
+  | "torchvision::nms", _ => [.posName]
+  | "torchvision::roi_pool", _ => [.ruleFails, .posName]
+  | _, _ => []
+
 def rowWithin (e : Entry) : Bool :=
-  e.defects.all (fun d => (waived e.qualified).contains d) && e.shapeOk
+  e.defects.all (fun d => (waived e.qualified).contains d) && e.shapeOk &&
+  decide (kReasons e.mode e.aten e.sig = outsideK e.qualified e.isComplex)
 
 /- The full statement `∀ e ∈ registry, e.ok = true` is false on the unchanged tree (see `waived`); it is
 kept as `registry_binds_full_refuted_snapshot` below on a literal copy of one failing row. -/
@@ -1080,8 +1170,9 @@ theorem registry_binds_partial : ∀ e ∈ registry, waived e.qualified = [] →
   intro e he hw
   have h := registry_within e he
   unfold rowWithin at h
-  rw [hw, Bool.and_eq_true] at h
-  replace h := h.1
+  rw [hw] at h
+  simp only [Bool.and_eq_true] at h
+  replace h := h.1.1
   have hd : e.defects = [] := by
     cases hdef : e.defects with
     | nil => rfl
@@ -1119,7 +1210,7 @@ theorem registry_rule_exact : ∀ e ∈ registry,
   have h := registry_within e he
   unfold rowWithin Entry.shapeOk at h
   simp only [Bool.and_eq_true] at h
-  exact bindsOk_iff _ _ _ h.2.1 (nodupS_sound _ h.2.2)
+  exact bindsOk_iff _ _ _ h.1.2.1 (nodupS_sound _ h.1.2.2)
 
 /-- **`registry_rejected_rows_fail`**: every row the rule rejects (all of them are listed in `waived`) has a
 concrete conforming call — the maximal or the minimal one — that the exporter's binder does not bind right.
@@ -1131,7 +1222,7 @@ theorem registry_rejected_rows_fail : ∀ e ∈ registry, bindsOk e.mode e.aten 
   have h := registry_within e he
   unfold rowWithin Entry.shapeOk at h
   simp only [Bool.and_eq_true] at h
-  exact bindsOk_tight _ _ _ h.2.1 (nodupS_sound _ h.2.2) hb
+  exact bindsOk_tight _ _ _ h.1.2.1 (nodupS_sound _ h.1.2.2) hb
 
 
 /-- No open finding waives a malformed name. -/
@@ -1153,7 +1244,7 @@ theorem registry_names_ok : ∀ e ∈ registry, nameOkCodes e.qcodes = true := b
     have hmem : Defect.badName ∈ e.defects := by
       unfold Entry.defects
       simp [hn]
-    have := h.1 _ hmem
+    have := h.1.1 _ hmem
     exact waived_no_badName e.qualified (List.contains_iff_mem.mp this)
 
 
@@ -1178,7 +1269,7 @@ theorem registry_signatures_faithful : ∀ e ∈ registry, sigFaithful e.sig = t
     have hmem : Defect.sigClass ∈ e.defects := by
       unfold Entry.defects
       simp [hn]
-    have := h.1 _ hmem
+    have := h.1.1 _ hmem
     exact waived_no_sigClass e.qualified (List.contains_iff_mem.mp this)
 
 example : classify (.base .bool) = (false, .int) ∧ classify (.seqOf .int) = (false, .ints) ∧
@@ -1206,13 +1297,13 @@ theorem registry_kinds_ok : ∀ e ∈ registry, e.complexNameOk = true ∧ e.sch
     | false =>
       exfalso
       have hmem : Defect.complexName ∈ e.defects := by unfold Entry.defects; simp [hn]
-      exact (waived_no_complexName e.qualified).1 (List.contains_iff_mem.mp (h.1 _ hmem))
+      exact (waived_no_complexName e.qualified).1 (List.contains_iff_mem.mp (h.1.1 _ hmem))
   · cases hn : e.schemaFlagsOk with
     | true => rfl
     | false =>
       exfalso
       have hmem : Defect.schemaFlag ∈ e.defects := by unfold Entry.defects; simp [hn]
-      exact (waived_no_complexName e.qualified).2 (List.contains_iff_mem.mp (h.1 _ hmem))
+      exact (waived_no_complexName e.qualified).2 (List.contains_iff_mem.mp (h.1.1 _ hmem))
 
 /-- A float-capable `Scalar` is not accepted by an INT attribute (`aten::histc(…, Scalar min, Scalar max)` on
 `min: int`), an integer-only one is (`aten::bitwise_and.Scalar`). -/
@@ -1229,6 +1320,27 @@ theorem registry_resolves_uniquely : ∀ e₁ ∈ registry, ∀ e₂ ∈ registr
     resolveKey e₁.qcodes = resolveKey e₂.qcodes → e₁.qcodes = e₂.qcodes := by
   intro e₁ h₁ e₂ h₂ h
   exact resolve_injective _ _ (registry_names_ok e₁ h₁) (registry_names_ok e₂ h₂) h
+
+
+/-- **`registry_outsideK_exact`**: for every row, the reasons it is outside `bindsOkK` are exactly those listed
+in `outsideK` — in particular every row not listed there satisfies `bindsOkK`. -/
+theorem registry_outsideK_exact : ∀ e ∈ registry,
+    kReasons e.mode e.aten e.sig = outsideK e.qualified e.isComplex := by
+  intro e he
+  have h := registry_within e he
+  unfold rowWithin at h
+  simp only [Bool.and_eq_true, decide_eq_true_eq] at h
+  exact h.2
+
+/-- **`registry_binds_by_keyword`** = table ∘ `bind_ok_sound_by_keyword`: for every registered overload not
+listed in `outsideK` (505 of 554 rows), every call of the wide model — positional schema arguments passed
+by position or by keyword — is bound right by the exporter's binder. -/
+theorem registry_binds_by_keyword : ∀ e ∈ registry, outsideK e.qualified e.isComplex = [] →
+    ∀ c, ConformsK e.aten c → ∃ b, bind e.mode e.sig c = .ok b ∧ BoundRightK e.mode e.aten e.sig c b := by
+  intro e he ho c hc
+  have hk := registry_outsideK_exact e he
+  rw [ho] at hk
+  exact bind_ok_sound_by_keyword _ _ _ ((kReasons_nil_iff _ _ _).mp hk) c hc
 
 /-- **`registry_unique`**: each (qualified name, real/complex) pair occurs once in what
 `get_torchlib_ops()` returns. -/
